@@ -211,6 +211,15 @@ pub fn run_c13(tier: Tier) -> i32 {
     let mut poor = mk(false, 0);
     poor.if_funds = 2 * D;
     confs.push((poor, tier.pick(3, 4)));
+    // breadth over configurations: the covering array of the engine-level checks (collateral dimension
+    // is the twin itself), shallow
+    let mut seen = std::collections::BTreeSet::new();
+    for mut c in crate::props::engprops::covering_configs() {
+        c.cw20 = true;
+        if seen.insert(c.label()) {
+            confs.push((c, tier.pick(2, 3)));
+        }
+    }
     for (c, d) in confs {
         let m = TwinModel { cfg: c.clone(), alphabet: alpha.clone() };
         run.explore(&format!("twin [{}]", c.label().replace("cw20", "cw20||native ")), json!({"cfg": to_val(&c)}), &m, &seeds, &Limits::new(d));
